@@ -42,6 +42,23 @@ def handmade_impl():
     return c
 
 
+def handmade_impl3():
+    """a third hand-wired implementation: the plain fork w feeds three output ports directly (p1, p2, p3, in that pin order) and an inverter
+    behind them, so unconnected instance outputs leave up to three neighbouring gaps in the copy of w"""
+    from kyupy.circuit import Circuit, Node, Line
+    c = Circuit('hand3')
+    a, b_ = Node(c, 'a'), Node(c, 'b')
+    g = Node(c, 'g', 'xor')
+    Line(c, a, g); Line(c, b_, g)
+    w = Node(c, 'w'); Line(c, g, w)
+    p1, p2, p3, q = Node(c, 'p1'), Node(c, 'p2'), Node(c, 'p3'), Node(c, 'q')
+    h = Node(c, 'h', 'inv')
+    Line(c, w, p1); Line(c, w, p2); Line(c, w, p3); Line(c, w, h); Line(c, h, q)
+    for n in (a, b_, q, p1, p2, p3):
+        c.io_nodes.append(n)
+    return c
+
+
 def handmade_impl2():
     """another hand-wired implementation: output port y is read inside (by an inverter) and, after that, drives output port z directly"""
     from kyupy.circuit import Circuit, Node, Line
@@ -232,7 +249,7 @@ class Interp:
     def impls(self):
         if self._impls is None:
             from kyupy import bench
-            self._impls = [bench.parse(t) for t in IMPLS] + [handmade_impl(), handmade_impl2()]
+            self._impls = [bench.parse(t) for t in IMPLS] + [handmade_impl(), handmade_impl2(), handmade_impl3()]
         return self._impls
 
     def rederive(self):
